@@ -31,6 +31,7 @@ func runC12(c *Ctx) {
 	w := c.W
 	hostnameRules(c) // NameError/MatchesDomain are VerifyHostname's verdict
 	c.DeadObligations(c.W.FuncsOfPkg("z/verifier"), "package verifier")
+	c12Extras4(c)
 	// InRevocationSet is OneCRL.Check / CRLSet.Check's verdict: the scan rules of C15 apply here too
 	c.borrow(runC15, func(o *Obligation) bool { return strings.Contains(o.Func, "OneCRL") || strings.Contains(o.Func, "CRLSet") })
 	fn := w.Fn(fnVWC)
